@@ -30,6 +30,9 @@ MOD = "vf.checks.c10"
 RTOL = 1e-5
 RTOL_REF_SHARED = 1e-4
 MEAN_TOL = 1e-6
+BASIS_EPS_FACTOR = 16.0  # direct basis calls: relative tolerance 16*dim*eps(dtype); worst observed on the unchanged tree: 3.3*eps (cosine), 6*eps (orthonormality), at every scale
+BASIS_SCALES = [1.0, 1e-3, 1e-6, 1e-9, 1e-12, 1e3, 1e6]
+LOG_V0_OFFSETS = [0.0, 0.0, 0.0, 0.0, 0.0, -12.0, -18.0, -22.0, -25.0]
 TINY = 1e-30  # absolute floor (times ||w||): float32 products of denormal-sized betas / sources underflow inexactly
 STEP_KINDS = ("logistic", "linear", "joint")
 
@@ -41,7 +44,8 @@ RULE = (
     "and every latent generated (xi = drawn offset in +-[0.15,2] or 0 plus deviations in [-2,2], tau = tau_mean + tau_std*[-3,3], sources in [-3,3]); "
     "step reached directly or through compute_sufficient_statistics, fork mode none/REF/COPY, warm/cold cache; one value set in three also drives the public "
     "compute_individual_trajectory API (1-4 ages in [40,100], first 3 individuals) around the in-place re-centring of model.state. "
-    "Direct basis cases: float32 dx of dimension 2-6 (both signs, magnitudes 1e-3..1e3), metric scalar / positive vector / SPD matrix, every strip_col (one evaluation each). "
+    "Direct basis cases: float32/float64 dx of dimension 2-6 (both signs, magnitudes 1e-3..1e3, times a global scale 1e-12..1e6), metric scalar / positive vector / SPD matrix, every strip_col (one evaluation each). "
+    "One value set in ~2 of the step kinds has every log_v0 shifted by -12..-25 (globally slow progression). "
     "Non-trivial = (kind has the step and |mean xi| > 0.1 before it) or (dimension >= 3 with >= 2 sources and no all-zero betas column) or "
     "(direct basis call with strip_col != 0, a matrix metric or a negative component); distinct by case."
 )
@@ -59,16 +63,20 @@ ASSUMPTIONS = [
     "Joint kind: generated tau is kept >= 0.3 below the event time for 3 cases out of 4 (what the model's own initialisation does); otherwise the event term may hold the "
     "barrier value 1e307, which is compared with the same relative rule.",
     "Regularity terms of xi / log_v0 / n_log_nu are expected to change and are not compared.",
+    "Model level: 4 value sets in 9 shift every log_v0 by a global offset in {-12, -18, -22, -25} (log_v0 down to -31, v0 >= 3e-14 still a normal float32); the orthogonality "
+    "bounds are relative to ||m||*||w||, so they apply unchanged; class tiny-velocity = ||metric_sqr*v0|| < 1e-7.",
     "Trajectory API: compute_individual_trajectory(ages, {xi, tau, sources}) of up to 3 individuals at 1-4 generated ages, called twice before the step (warm caches) and once after "
     "it with the re-centred xi, on the model whose own state is re-centred in place; longitudinal columns within the model tolerance above; the joint event column (corrected "
     "survival S/S0) within 1e-5*(1 + max (t-tau)/nu_rep)^rho) and only where that exponent is <= 50 (float32 survival not yet in the denormal range), else counted and skipped.",
-    "Direct basis sub-check: compute_orthonormal_basis(dx, G, strip_col=j) for float32 dx of dimension 2-6 with components +-[1e-3, 1e3] (a zero component is drawn with small "
+    "Direct basis sub-check: compute_orthonormal_basis(dx, G, strip_col=j) for float32 / float64 dx of dimension 2-6 with components +-[1e-3, 1e3] times a global scale in "
+    "{1, 1e-3, 1e-6, 1e-9, 1e-12, 1e3, 1e6} (orthogonality is scale-free; a zero component is drawn with small "
     "probability; strip_col values where (G.dx)[j] == 0 are excluded and counted: torch.sign(0) = 0 makes the reflection degenerate there, reproducer "
     "repro_basis_zero_strip_component), G a positive scalar tensor, a positive vector or an SPD matrix A^T A + c I (|A_ij| <= 1, c in [1, 3]); predicate: shape (dim, dim-1), "
-    "max|B^T B - I| <= 1e-5, |b.w| <= 1e-5*||w|| + dim*1.2e-7*|| |G||dx| || per column (second term: float32 forward error of the function's own G.dx), "
+    "max|B^T B - I| <= 16*dim*eps(dtype), cosine |b.w|/(|b||w|) <= 16*dim*eps + dim*eps*|| |G||dx| ||/||w|| per column (second term: forward error of the function's own G.dx; "
+    "measured on the unchanged tree at every scale and both dtypes: cosine <= 3.3 eps, orthonormality <= 6 eps), "
     "smallest singular value of [B | w/||w||] >= 0.5 (full rank), w = G.dx in float64.",
 ]
-REQUIRED_CLASSES = {"traj": 0.1, "traj:joint": 30, "traj:event-column-judged": 10, "basis": 0.03, "basis:strip-nonzero": 0.02, "basis:metric-2d": 100, "basis:metric-1d": 100,
+REQUIRED_CLASSES = {"tiny-velocity": 200, "ortho:tiny-velocity": 50, "basis:tiny-velocity": 100, "basis:float64": 100, "traj": 0.1, "traj:joint": 30, "traj:event-column-judged": 10, "basis": 0.03, "basis:strip-nonzero": 0.02, "basis:metric-2d": 100, "basis:metric-1d": 100,
                     "basis:metric-scalar": 100, "recentre": 0.4, "recentre:nontrivial": 0.25, "ortho": 0.3, "ortho:nontrivial": 0.04, "kind:joint": 0.05, "kind:linear": 0.05,
                     "kind:logistic": 0.05, "kind:shared_speed_logistic": 0.03, "how:suffstats": 0.08, "how:direct": 0.08, "joint:no-sources": 5, "joint:sources": 5}
 
@@ -169,6 +177,8 @@ def build_state(ctx, kind, pop, lat):
         for name in ("log_g", "g", "log_v0", "deltas", "betas", "n_log_nu", "log_rho", "zeta", "noise_std"):
             if name in pop and name in s.dag and s._values.get(name) is not None:
                 put(name, pop[name])
+        if pop.get("log_v0_offset"):
+            s["log_v0"] = s._values["log_v0"] + float(pop["log_v0_offset"])  # globally slow progression (orthogonality is scale-free)
         cur = s._values["xi"]
         base = float(s._values["xi_mean"].reshape(-1)[0]) if kind == "shared_speed_logistic" else 0.0
         s["xi"] = (gen.tensor_from(lat["xi_dev"], tuple(cur.shape)).double() + float(lat["xi_off"]) + base).to(cur.dtype)
@@ -237,7 +247,7 @@ def check_ortho(s, kind, tag):
             if not dot <= bound:
                 raise Fail("ortho", f"{tag}:space-shift-not-orthogonal:{wname}",
                            f"individual {i}: |s.w| = {dot:.6g}; s = {S[i].tolist()}, w = {w.tolist()}", f"<= {bound:.6g}")
-    return dict(worst_cos=worst, betas_cols_nonzero=bool((np.abs(betas).sum(axis=0) > 0).all()))
+    return dict(worst_cos=worst, betas_cols_nonzero=bool((np.abs(betas).sum(axis=0) > 0).all()), w_norm=float(np.linalg.norm(w_state)))
 
 
 # ------------------------------------------------------------------------------------------------
@@ -404,27 +414,33 @@ def body_basis(col: Collector, case):
 
     from leaspy.utils.linalg import compute_orthonormal_basis
 
-    dx = torch.tensor(case["dx"], dtype=torch.float32)
+    dt = torch.float64 if case.get("dtype") == "float64" else torch.float32
+    scale = float(case.get("scale", 1.0))
+    eps = float(torch.finfo(dt).eps)
+    dx = torch.tensor(case["dx"], dtype=dt) * scale  # orthogonality is scale-free: the direction is judged at every magnitude
     dim = dx.shape[0]
     form = case["metric"]["form"]
     if form == "scalar":
-        G = torch.tensor(case["metric"]["value"], dtype=torch.float32)
+        G = torch.tensor(case["metric"]["value"], dtype=dt)
         G64 = float(G) * np.eye(dim)
     elif form == "1d":
-        G = torch.tensor(case["metric"]["value"], dtype=torch.float32)
+        G = torch.tensor(case["metric"]["value"], dtype=dt)
         G64 = np.diag(G.double().numpy())
     else:
         A = torch.tensor(case["metric"]["A"], dtype=torch.float32).reshape(dim, dim)
-        G = (A.T.double() @ A.double() + float(case["metric"]["c"]) * torch.eye(dim, dtype=torch.float64)).float()
+        G = (A.T.double() @ A.double() + float(case["metric"]["c"]) * torch.eye(dim, dtype=torch.float64)).to(dt)
         G = 0.5 * (G + G.T)
         G64 = G.double().numpy()
     dx64 = dx.double().numpy()
     w = G64 @ dx64
     wn = float(np.linalg.norm(w))
-    fwd = dim * 1.2e-7 * float(np.linalg.norm(np.abs(G64) @ np.abs(dx64)))
+    fwd = dim * eps * float(np.linalg.norm(np.abs(G64) @ np.abs(dx64)))  # forward error of the function's own G.dx in its dtype
+    tol = BASIS_EPS_FACTOR * dim * eps  # relative (cosine / orthonormality) tolerance from dtype and dimension
     for j in range(dim):
-        classes = ["basis", f"basis:dim-{dim}", "basis:metric-" + form]
-        inp = dict(dx=case["dx"], metric=case["metric"], strip_col=j)
+        classes = ["basis", f"basis:dim-{dim}", "basis:metric-" + form, "basis:" + ("float64" if dt == torch.float64 else "float32"), f"basis:scale-{scale:g}"]
+        if scale <= 1e-9:
+            classes += ["tiny-velocity", "basis:tiny-velocity"]
+        inp = dict(dx=case["dx"], metric=case["metric"], strip_col=j, scale=scale, dtype=case.get("dtype", "float32"))
         # the function's own float32 (G.dx)[j] may be exactly 0: dx[j] == 0 for scalar / diagonal metrics, |w[j]| within the matvec error for a matrix
         if wn == 0.0 or (dx64[j] == 0.0 if form != "2d" else abs(w[j]) <= fwd):
             col.exclude("basis:zero-component-at-strip-col(sign(0)=0: degenerate reflection)")
@@ -448,22 +464,24 @@ def body_basis(col: Collector, case):
         else:
             err = float(np.abs(B.T @ B - np.eye(dim - 1)).max())
             dots = np.abs(B.T @ w)
-            bound = RTOL * np.linalg.norm(B, axis=0) * wn + fwd
+            bn = np.linalg.norm(B, axis=0)
+            bound = tol * bn * wn + fwd
             smin = float(np.linalg.svd(np.concatenate([B, (w / wn)[:, None]], axis=1), compute_uv=False).min())
-            if not err <= RTOL:
-                bucket, obs, exp = "columns-not-orthonormal", f"max|B^T B - I| = {err:.3g}", f"<= {RTOL}"
+            if not err <= tol:
+                bucket, obs, exp = "columns-not-orthonormal", f"max|B^T B - I| = {err:.3g}", f"<= {tol:.3g}"
             elif not (dots <= bound).all():
                 k = int(np.argmax(dots - bound))
                 bucket, obs, exp = ("column-not-orthogonal-to-G.dx" + ("" if j == 0 else ":strip-col-nonzero"),
-                                    f"column {k}: |b.w| = {dots[k]:.6g} = {dots[k] / wn:.3g}*||w||; b = {B[:, k].tolist()}, w = {w.tolist()}", f"<= {bound[k]:.6g}")
+                                    f"column {k}: cosine |b.w|/(|b||w|) = {dots[k] / max(bn[k] * wn, 1e-300):.3g} (||w|| = {wn:.3g}); b = {B[:, k].tolist()}, w = {w.tolist()}",
+                                    f"cosine <= {bound[k] / max(bn[k] * wn, 1e-300):.3g}")
             elif not smin >= 0.5:
                 bucket, obs, exp = "basis-plus-direction-not-full-rank", f"smallest singular value of [B | w/||w||] = {smin:.3g}", ">= 0.5"
         if bucket:
             col.fail("basis", bucket, inp, observed=obs, expected=exp)
             col.case(classes=classes)
             continue
-        col.case(classes=classes, nontrivial=jhash(inp) if (j != 0 or form == "2d" or (dx64 < 0).any()) else None,
-                 sample=dict(sub_check="basis", dim=dim, metric=form, strip_col=j, dx=case["dx"]))
+        col.case(classes=classes, nontrivial=jhash(inp) if (j != 0 or form == "2d" or (dx64 < 0).any() or scale != 1.0) else None,
+                 sample=dict(sub_check="basis", dim=dim, metric=form, strip_col=j, dx=case["dx"], scale=scale, dtype=case.get("dtype", "float32")))
 
 
 @st.composite
@@ -478,7 +496,7 @@ def basis_case(draw, max_dim=6):
         metric = dict(form=form, value=[draw(gen.f32(0.01, 500)) for _ in range(dim)])
     else:
         metric = dict(form=form, A=[draw(gen.f32(-1, 1)) for _ in range(dim * dim)], c=draw(gen.f32(1, 3)))
-    return dict(dx=dx, metric=metric)
+    return dict(dx=dx, metric=metric, scale=draw(st.sampled_from(BASIS_SCALES)), dtype=draw(st.sampled_from(["float32", "float32", "float64"])))
 
 
 def repro_basis_zero_strip_component():
@@ -583,6 +601,10 @@ def one(col: Collector, ctx, cfg, cohort, var):
         classes.append("recentre:nontrivial")
     if nt_o:
         classes.append("ortho:nontrivial")
+    if var["pop"].get("log_v0_offset"):
+        classes.append("slow-progression(log_v0-offset)")
+    if info_o is not None and info_o["w_norm"] < 1e-7:
+        classes += ["tiny-velocity", "ortho:tiny-velocity"]
     if info_r is not None and info_r["barrier"]:
         classes.append("joint:event-barrier-value")
     if info_r is not None and abs(info_r["mean0"]) <= 0.1:
@@ -632,6 +654,9 @@ def variant_strategy(draw, kind, d, sd, n):
         pop.update(log_g=draw(_floats(-2, 2, 1)), deltas=draw(_floats(-2, 2, d - 1)))
     else:
         pop["log_v0"] = draw(_floats(-6, -1, d))
+        off = draw(st.sampled_from(LOG_V0_OFFSETS))
+        if off:
+            pop["log_v0_offset"] = off
         pop["g" if kind == "linear" else "log_g"] = draw(_floats(-3, 3, d))
     if sd:
         pop["betas"] = draw(_floats(-1, 1, (d - 1) * sd))
@@ -714,7 +739,7 @@ def replay(sub_check: str, inp):
     env.import_leaspy()
     col = Collector(PROP, "replay")
     if sub_check == "basis":
-        body_basis(col, dict(dx=inp["dx"], metric=inp["metric"]))
+        body_basis(col, dict(dx=inp["dx"], metric=inp["metric"], scale=inp.get("scale", 1.0), dtype=inp.get("dtype", "float32")))
         return [f for f in col.failures if f["input"].get("strip_col") == inp.get("strip_col", f["input"].get("strip_col"))]
     body(col, inp)
     return col.failures
